@@ -455,7 +455,7 @@ def judge(p, events, tag):
     tf = d / f"{tag}.trace.ndjson"
     # TLC's JSON reader has no null: an observation that could not be made is -1 (the spec's "unknown")
     events = [{k: (-1 if v is None else v) for k, v in e.items()} for e in events]
-    vlib.ndjson_write(tf, events)
+    vlib.ndjson_write(tf, events, tla=True)
     cfgt = cfg + "SPECIFICATION TraceSpec\nINVARIANT TraceDone\n"
     r = tlc_in(d, "MCT", cfgt, "MCT.cfg", workers=1, env={"TRACE": str(tf)}, timeout=300, heap="3g")
     if r.error or r.violated:
